@@ -57,8 +57,8 @@ CLAIMED = {
    text="Mutated reference encodings and random/framed byte strings up to 64 KiB are decoded under all option combinations under catch_unwind; success implies size = 20+length <= input and the same result for the prefix alone or followed by junk; get_input_text never panics. Histories dominated by garbage and mutated replies (addressed to outstanding transactions, half re-fingerprinted, hostile NONCE/REALM/PASSWORD-ALGORITHMS in 401/438) run against clients of every mechanism, after which a fresh exchange must still complete. Mutated streams are fed to the reassembler in generated chunkings.",
    note="Panic attribution by source location. Termination is observed as return; a watchdog turns a hang into exit 2 (inconclusive).",
    ref="3/C03"),
- "C05": dict(technique=H+"; history invariant 'at most one final outcome, then silence' plus hook-observed table/heap membership",
-   text="20k (quick) / 400k (thorough) histories of up to 40 operations with 1-8 concurrent requests, timers exact/early/late beyond the deadline, replies lost, duplicated, reordered, late, failing authentication or addressed to unknown ids, on both transports and all mechanisms, each followed by a notification-driven drain. Per transaction id: at most one final event, nothing emitted afterwards, late/duplicate replies rejected, responses delivered only for awaiting ids, finished ids absent from the transaction table and the timer heap.",
+ "C05": dict(technique=H+"; history invariant 'at most one final outcome, then silence' plus hook-observed table membership",
+   text="20k (quick) / 400k (thorough) histories of up to 40 operations with 1-8 concurrent requests, timers exact/early/late beyond the deadline, replies lost, duplicated, reordered, late, failing authentication or addressed to unknown ids, on both transports and all mechanisms, each followed by a notification-driven drain. Per transaction id: at most one final event, nothing emitted afterwards, late/duplicate replies rejected, responses delivered only for awaiting ids, finished ids absent from the transaction table.",
    note="Trusted: the tracker (observed finals), the read-only hooks, reference codec for replies.", ref="3/C05"),
  "C06": dict(technique=H+"; RFC 8489 slot/deadline schedule model with exact nanosecond arithmetic",
    text="Timer-heavy histories over Rc 1-10, Rm 1-32, RTO 1 ms-3 s (or reliable timeouts), 1-8 requests sharing the timer, calls exact/early/late up to beyond the deadline and learned RTO values: every (re)transmission must happen in a call at or after an unused slot t0+(2^k-1)RTO, at most one per call and Rc in total, byte-identical; a due slot must be served; failure exactly at the first call at or after the deadline; armed expiry equals the model's (late calls skip slots, never shift the deadline). Plus the fixed default schedule 0..31500 ms / 39500 ms.",
@@ -70,7 +70,7 @@ CLAIMED = {
    text="Scripts of 1-6 exchanges: the reference server answers each client request with a generated behaviour (401 variants, 438, authenticated / unauthenticated / wrongly keyed success, other errors, malformed and non-conforming challenges, silence); every client request must satisfy the packet oracle (no credentials before a challenge; afterwards USERNAME or USERHASH, REALM, latest NONCE, offered PASSWORD-ALGORITHMS + a supported PASSWORD-ALGORITHM, verifying integrity of the right kind, never the password) and be accepted by the reference server while the client holds its current conforming challenge; deliveries must verify under the session key; 401/438 must yield Retry, indications are refused. Two recorded deviations are excluded by construction through lenient server branches and printed as KNOWN-FINDING.",
    note="Known findings F7/F8 listed in KNOWN_FINDINGS.txt; any other rejection by the reference server is a violation.", ref="3/C08, Appendix B"),
  "C11": dict(technique=H+"; notification accuracy against hook-observed timer entries and a bounded notification-following controller run for sufficiency",
-   text="After every send_request/on_timeout the notification must exist iff a request is awaiting, name a request with the earliest pending deadline and give max(0, deadline-now) exactly; exactly one timer entry per awaiting request. Each history ends with a simulated controller that only follows notifications (late by generated amounts): every request must be final by the controller's first call at or after its RFC deadline, and no timer may remain. Liveness is thus decided as a finite run because the harness owns the clock.",
+   text="After every send_request/on_timeout the notification must exist iff a request is awaiting, name a request with the earliest pending deadline and give max(0, deadline-now) exactly; at least one timer entry per awaiting request (hook); deadlines are the model's. Each history ends with a simulated controller that only follows notifications (late by generated amounts): every request must be final by the controller's first call at or after its RFC deadline, and no timer may remain. Liveness is thus decided as a finite run because the harness owns the clock.",
    note="Up to 8 concurrent requests.", ref="3/C11"),
  "C12": dict(technique=H+"; counting oracle (sent minus finalised) with snapshot equality on refusal",
    text="Limits 0-4 and 10 with histories mixing sends, indications, every reply kind, rejected buffers and expiries (thorough adds 400-operation random walks): send_request returns the maximum-outstanding error exactly when sent-minus-finalised equals the limit, a refusal produces no event and leaves the snapshot unchanged, indications never touch the table, finished transactions leave it.",
